@@ -222,7 +222,8 @@ def checkLive (c : Ctx) : List (Nat × Payload) → Option Clause
   | (i, p) :: rest =>
     let w : Why :=
       if decide (endOff c.scn.items i - (match c.scn.items[i]? with | some it => it.bytes.length | none => 0) < c.m.epReadEnd) then .sameReadAsEndpoint
-      else c.why
+      else if c.m.termSeen || c.m.connRet then c.why   -- the client had torn the session down before
+      else .plain
     let r : Option Clause :=
       match p with
       | .resp 0 true =>
